@@ -204,8 +204,13 @@ def _alg_case(args):
                 m |= surplus("s")
         return m & U
     mask = shorthand_mask(A, B if B is not None else "")
-    sa = S(A)
-    sb = S(B) if B is not None else None
+    try:
+        sa = S(A)
+        sb = S(B) if B is not None else None
+    except re.error as e:
+        # an operand that is itself a result of the algebra (nested expression) does not compile
+        return {"expr": f"{ea} {op} {eb}", "what": f"an operand expression yields a class text that does not compile: {e}",
+                "operands": [str(A), str(B)]}
     try:
         if op == "or":
             R = A | B
